@@ -26,7 +26,10 @@ impl StructType {
 
 impl Hash for StructType {
     fn hash<H: std::hash::Hasher>(&self, state: &mut H) {
-        self.0.keys().collect::<Box<[&Arc<str>]>>().hash(state)
+        // keys in sorted order: equal struct types must hash equally whatever their map order is
+        let mut keys = self.0.keys().collect::<Box<[&Arc<str>]>>();
+        keys.sort();
+        keys.hash(state)
     }
 }
 
